@@ -77,7 +77,11 @@ def _systems(rng, n):
         base["options"] = {"sim_time": rng.choice([0.02, 0.05]), "max_step_size": 0.005}
         # analysis() offers no way to choose the seed (`random_seed` is not an accepted option key), so the
         # harness sets it on the tester the call constructs; None = leave the default
-        out.append({"indict": base, "seed": rng.choice([None, rng.randrange(0, 1000)])})
+        case = {"indict": base, "seed": rng.choice([None, rng.randrange(0, 1000)])}
+        if i % 2 == 1:
+            # scripted stepper: dictate which candidate suggests a step below eps * dist_ratio on a cut step
+            case["script"] = rng.choice([{"rk4": 1e-16}, {"bsimp": 1e-16}, {"rk4": 1e-16, "bsimp": 5e-16}, {"rk4": 1e-13}, {}])
+        out.append(case)
     return out
 
 
@@ -99,6 +103,26 @@ def case_benchmark(case):
     o_sg = SpikeGenerator.spike_times_from_json.__func__
     o_cs = StiffnessTester.check_stiffness
     o_init = StiffnessTester.__init__
+    from odetoolbox.mixed_integrator import MixedIntegrator
+    import pygsl.odeiv as odeiv
+    o_int = MixedIntegrator.integrate_ode
+    measured = []
+
+    def rec_int(self, *a, **k):
+        r = o_int(self, *a, **k)
+        measured.append([getattr(self.numeric_integrator, "__name__", str(self.numeric_integrator)), float(r[0]), float(r[1])])
+        return r
+    script = case.get("script")
+    if script:
+        calls = {"rk4": 0, "bsimp": 0}
+
+        def scripted(name, t, t1, h, y, func, jac):
+            calls[name] += 1
+            hs = h
+            if script.get(name) and calls[name] % 3 == 2:
+                hs = script[name]              # a tiny suggested step on a step that was cut
+            import numpy as np
+            return t1, hs, np.array(y) + (t1 - t) * np.array(func(t, y, None), dtype=float)
 
     def t_init(self, *a, **k):
         o_init(self, *a, **k)
@@ -143,19 +167,22 @@ def case_benchmark(case):
     SpikeGenerator.spike_times_from_json = classmethod(sg)
     StiffnessTester.check_stiffness = cs
     StiffnessTester.__init__ = t_init
+    MixedIntegrator.integrate_ode = rec_int
+    if script:
+        odeiv.SCRIPT = scripted
     out = {"runs": []}
     try:
         random.seed.__self__ if False else None
         o_py_seed(987654321)        # ambient state: deterministic but unrelated to the option seed
         for rep in range(2):
-            del events[:], trains[:], recs[:]
+            del events[:], trains[:], recs[:], measured[:]
             try:
                 res = odetoolbox.analysis(json.loads(json.dumps(indict)), disable_stiffness_check=False)
                 names = [s["solver"] for s in res]
                 err = None
             except Exception as e:
                 names, err = [], type(e).__name__ + ": " + str(e)[:200]
-            out["runs"].append({"events": list(events), "trains": [dict(t) for t in trains], "recs": list(recs),
+            out["runs"].append({"events": list(events), "trains": [dict(t) for t in trains], "recs": list(recs), "measured": [list(m) for m in measured],
                                 "names": names, "error": err})
     finally:
         np.random.seed, random.seed, random.random = o_np_seed, o_py_seed, o_py_random
@@ -164,6 +191,8 @@ def case_benchmark(case):
         SpikeGenerator.spike_times_from_json = classmethod(o_sg)
         StiffnessTester.check_stiffness = o_cs
         StiffnessTester.__init__ = o_init
+        MixedIntegrator.integrate_ode = o_int
+        odeiv.SCRIPT = None
     out["seed_used"] = seeds_used[0] if seeds_used else None
     return out
 
@@ -249,11 +278,12 @@ def run(ctx, driver):
     if not py_seed:
         ctx.tie_break("hypothesis:benchmarks_same_stimulus",
                       "pol.seedsPython = true is not met by the source: _evaluate_integrator does not call random.seed")
-    nsys = 6 if ctx.tier == "quick" else 40
+    nsys = ctx.n(16, 80)
     systems = [c["case"] for c in ctx.corpus() if "case" in c] + _systems(ctx.rng("systems"), nsys)
     results = pool.run_cases("harness.props.c14", "case_benchmark", systems, timeout=150, init="_init_worker",
                              deadline=ctx.deadline())
     proto_ops = []
+    draw_ops = []
     for case, res in zip(systems, results):
         indict = case
         ctx.evaluations += 1
@@ -283,6 +313,17 @@ def run(ctx, driver):
                           "observed": {"variable": k, "first_run_head": r["trains"][0][k][:3], "second_run_head": r["trains"][1].get(k, [])[:3]},
                           "signature": dict(sigbase, what="trains differ between the two candidates")})
             rec = r["recs"][0] if r["recs"] else None
+            ms = r.get("measured") or []
+            if rec is not None and len(ms) == 2:
+                (n_exp, min_exp, avg_exp), (n_imp, min_imp, avg_imp) = ms
+                want_rec = documented(min_imp, min_exp, avg_imp, avg_exp, 10, 6)
+                ctx.count("end_to_end_recommendation_checked")
+                ctx.count("end_to_end:" + str(want_rec))
+                draw_ops.append((case, [min_imp, min_exp, avg_imp, avg_exp, 10, 6], rec))
+                if want_rec is not None and avg_imp != 6 * avg_exp and rec != want_rec:
+                    ctx.fail("recommendation-not-function-of-measured-steps", case,
+                             {"measured": {"step_min_imp": min_imp, "step_min_exp": min_exp, "step_average_imp": avg_imp, "step_average_exp": avg_exp},
+                              "expected_documented": want_rec, "observed": rec, "signature": {"site": "check_stiffness", "script": sorted((case.get("script") or {}).keys())}})
             numeric = [n for n in r["names"] if n.startswith("numeric")]
             want = "numeric" + ("-" + rec if rec is not None else "")
             if numeric != [want]:
@@ -311,6 +352,13 @@ def run(ctx, driver):
                         n_rand[blk] += 1
             proto_ops.append((ev, {"seed": int(res["seed_used"]), "n1": n_rand[0], "n2": n_rand[1],
                                    "seeds_numpy": np_seed, "seeds_python": py_seed}))
+    if driver is not None and draw_ops:
+        ans = driver.ask([("draw", {"args": [tb.f2bits(EPS)] + [tb.f2bits(x) for x in q]}) for _, q, _ in draw_ops])
+        for (case, q, rec), a in zip(draw_ops, ans):
+            ctx.count("corr_recommend")
+            if a.get("decision") != rec:
+                ctx.tie_break("corr:recommend", {"case": case.get("script"), "measured": q, "model": a, "impl": rec,
+                                                 "note": "check_stiffness() vs the regenerated decision function applied to what integrate_ode measured"})
     if driver is not None and proto_ops:
         ans = driver.ask([("stiff-proto", p) for _, p in proto_ops])
         for (ev, p), a in zip(proto_ops, ans):
